@@ -451,6 +451,20 @@ def f_nested(deep=1, v=1, p_need="OPTIONAL", src="src", pcopy=0):
     }
 
 
+def f_cutoff(multi=0, src="x", v=1):
+    """Early cut-off: K declares src.txt as input but writes a constant, so an edit of src.txt
+    reruns K with an identical k.txt; B and C behind it must be skipped. With multi=1 the last
+    step is a two-line shell command (a command with a control character)."""
+    last = ["step", "tr C b.txt -- c.txt\ntr D b.txt -- d.txt" if multi else "tr C b.txt -- c.txt",
+            {"inp": ["b.txt"], "out": ["c.txt", "d.txt"] if multi else ["c.txt"], "shell": bool(multi)}]
+    return {
+        "src.txt": f"source {src}\n",
+        "plan.py": script([["static", "src.txt"],
+                           ["step", "tr K -- k.txt", {"inp": ["src.txt"], "out": ["k.txt"]}],
+                           tr("B", ["k.txt"], ["b.txt"]), last], v=v),
+    }
+
+
 DOMAINS = {
     "f_chain": {"a_tag": (1, 2), "b": (1, 0), "b_need": ("DEFAULT", "OPTIONAL"),
                 "b_out": ("b.txt", "b2.txt"), "c": (1, 0), "src": ("x", "y"), "src_exists": (1, 0)},
@@ -463,8 +477,9 @@ DOMAINS = {
     "f_vol": {"outdir": ("out/deep", "out2"), "log": ("vol", "out", "none"),
               "workdir": (".", "wd", "wd/in"), "present": (1, 0), "adopt": ("none", "tree", "file")},
     "f_redefine": {"inp": (("src.txt",), (), ("src.txt", "src2.txt")), "out": (("r.txt",), ("r.txt", "r2.txt"))},
-    "f_optional": {"u": (1, 0), "o2_need": ("OPTIONAL", "DEFAULT"), "src": ("x", "y")},
+    "f_optional": {"u": (1, 0), "o2_need": ("OPTIONAL", "DEFAULT"), "src": ("x", "y", "!fail")},
     "f_selfprod": {"sub": (1, 0)},
+    "f_cutoff": {"multi": (0, 1), "src": ("x", "y"), "v": (1, 2)},
     "f_nested": {"deep": (1, 0), "v": (1, 2), "p_need": ("OPTIONAL", "DEFAULT")},
     "f_dynout": {"target": ("dyn1", "dyn2"), "consumer": ("none", "dyn1", "dyn2"), "sub": (0, 1)},
     "f_hold": {"nesting": (2, 1), "v": (1, 2)},
